@@ -316,7 +316,7 @@ pub fn member_menu() -> Vec<Member> {
 /// third-party member that reports "no padding" as Some(0) in front of a padded last member inside a nested compound.
 pub fn many_member_space() -> TargetSpace {
     let counts: [usize; 16] = [5, 7, 8, 9, 15, 16, 17, 18, 31, 32, 33, 34, 63, 64, 65, 100];
-    TargetSpace::new("compound-many-members", 16 * 2 * 3, false, move |idx| {
+    TargetSpace::new("compound-many-members", 16 * 2 * 4, false, move |idx| {
         use Member::*;
         let n = counts[(idx % 16) as usize];
         let stride = if (idx / 16) % 2 == 0 { 1 } else { 3 };
@@ -333,6 +333,18 @@ pub fn many_member_space() -> TargetSpace {
             1 => {
                 ms.pop();
                 ms.push(Plain(Pkt::Rr { ssrc: 5, blocks: vec![], pad: 8 }));
+            }
+            3 => {
+                // zero-sized third-party writers: a padded one in the middle, plain ones around it and at the end
+                // (refused); with n even the padded one is last instead (accepted)
+                let z = |pad: u8| Ext { pt: 242, min: 4, count: 0, ssrc: ext::ZST_SSRC, words: vec![], pad };
+                ms = (0..n.min(9)).map(|_| z(0)).collect();
+                let m = ms.len();
+                if n % 2 == 0 {
+                    ms[m - 1] = z(4);
+                } else {
+                    ms[m / 2] = z(4);
+                }
             }
             2 => {
                 // a nested compound [third-party member answering Some(0), padded BYE] in a non-last position: refused
